@@ -4,7 +4,7 @@ import json, os
 V = os.path.dirname(os.path.dirname(os.path.abspath(__file__)))
 c = json.load(open(os.path.join(V, "driver", "claims.json")))
 checks = []
-for pid in sorted(k for k in c if k.startswith("C") and "not_applicable" not in c[k]):
+for pid in sorted(k for k in c if k.startswith("C") and "not_applicable" not in c[k]):  # a claim with a not_applicable text is held back
     e = c[pid]
     checks.append(dict(
         property_id=pid,
